@@ -1006,6 +1006,9 @@ func ExecSK(f []string) string {
 	return out
 }
 
+// ExecSKRaw runs the request without recovering (used to locate a panic).
+func ExecSKRaw(f []string) string { return execSK(f) }
+
 func execSK(f []string) string {
 	data := hx.UnHex(f[1])
 	rd := stream.NewByteReader(data)
